@@ -1,0 +1,24 @@
+//go:build verif
+
+// Contracts for the verifier in /verif (comment-only file; contributes no declarations).
+package quotaprocessordec
+
+//@ pure APIStreamI.GetID
+//@ pure APIStreamI.GetType
+//@ ghost var gDecCount gmap[string]int
+
+//@ iface ResourceManagementI.GetQuota
+//@   modifies now
+//@   ensures result1 == nil ==> result0 != nil
+//@ iface QuotaResourceI.Dec
+//@   params s
+//@   modifies gDecCount, now
+//@   ensures gDecCount[s.GetID()] == old(gDecCount[s.GetID()]) + 1
+
+// The dec processor at the end of a quota's response system flow gives the slot back (when the quota asks for it).
+//@ func (*quotaProcessorDec).Execute
+//@   prop C02
+//@   requires p.metaData != nil
+//@   modifies gDecCount, now
+//@   ensures[dec-delivered] p.applyLogic && result1 == nil ==> gDecCount[apiStream.GetID()] == old(gDecCount[apiStream.GetID()]) + 1
+//@   ensures[no-logic-no-dec] !p.applyLogic ==> gDecCount[apiStream.GetID()] == old(gDecCount[apiStream.GetID()]) && result1 == nil
